@@ -83,7 +83,7 @@ fn declared_artifacts(field: &str, signer4: &SignedSecretKey, signer6: &SignedSe
             } }
         }
         "literal_name" => { for n in [255u8, 128] { for k in [0usize, 3] { let mut b = vec![b'b', n]; b.extend(fill(k)); v.push((format!("literal name length {n}, {k} supplied"), pkt(11, &b))); } } }
-        "user_attribute_subpacket" => { for big in bigs32 { for extra in [0usize, 3000] { let mut b = vec![0xFFu8]; b.extend(be32(big)); b.extend([1u8, 0x10, 0, 1, 1]); b.extend(fill(extra)); v.push((format!("user attribute subpacket declares {big}, {extra} more supplied"), pkt(17, &b))); } }
+        "user_attribute_subpacket" => { for big in bigs32 { for extra in [0usize, 3000] { for typ in [1u8, 99, 0] { let mut b = vec![0xFFu8]; b.extend(be32(big)); b.extend([typ, 0x10, 0, 1, 1]); b.extend(fill(extra)); v.push((format!("user attribute subpacket (type {typ}) declares {big}, {extra} more supplied"), pkt(17, &b))); } } }
             for big in [u32::MAX] { let mut b = vec![0xFFu8]; b.extend(be32(big)); b.extend([1u8, 0x10, 0, 1, 1]); v.push((format!("user attribute subpacket declares {big}"), pkt(17, &b))); } }
         "key_v6_material_length" => { for big in bigs32 { for alg in [27u8, 1, 19, 25, 99, 100, 22, 18] { for supplied in [40usize, 1100, 20000] { let mut b = vec![6u8, 0, 0, 0, 1, alg]; b.extend(be32(big)); b.extend(fill(supplied)); v.push((format!("v6 key (alg {alg}) declares {big} octets of key material, {supplied} supplied"), pkt(6, &b))); let mut s = b.clone(); s.extend([0u8; 40]); v.push((format!("v6 secret key (alg {alg}) declares {big}, {supplied} supplied"), pkt(5, &s))); } } } }
         "ecc_oid" => { for alg in [18u8, 19, 22] { for l in [255u8, 0, 128] { let mut b = vec![4u8, 0, 0, 0, 1, alg, l]; b.extend(fill(12)); v.push((format!("alg {alg} OID length {l}"), pkt(6, &b))); } } }
